@@ -25,6 +25,7 @@ ASSUMPTIONS = [
 ]
 
 QUICK_METRICS = ["euclidean", "manhattan"]
+SCALES = [1e-25, 1e-7, 1e25]
 THOROUGH_METRICS = ["euclidean", "manhattan", "log_squared_euclidean", "chebyshev",
                     "squared_euclidean", "gower", "lorentzian", "hamming",
                     "average_euclidean", "log_euclidean", "non_intersection"]
@@ -33,7 +34,8 @@ THOROUGH_METRICS = ["euclidean", "manhattan", "log_squared_euclidean", "chebyshe
 def bounds(tier):
     b = {"pre_computed": ["WO(3) x L(3)", "WO(4) x L(4)", "G(4,3,zero) x L(4)",
                           "G(5,2) x L(5)", "G(4,3,zero) and G(5,2) again through a non-identity "
-                          "index array into a larger matrix with decoy rows"],
+                          "index array into a larger matrix with decoy rows",
+                          "G(4,3,zero) and WO(4) with all weights scaled by 1e-25, 1e-7, 1e25"],
          "features": ["P(4, {0,1,2}^2) x L(4) x %s" % QUICK_METRICS,
                       "P(5, {0..3}) x L(5) x ['log_squared_euclidean']"]}
     if tier == "thorough":
@@ -56,6 +58,13 @@ def plan(tier, seed):
         shards.append(("ge", 4, 3, True, a, b))
     for a, b in E.chunks(E.n_graphs(5, 2), 128):
         shards.append(("ge", 5, 2, False, a, b))
+    # magnitude sweep: the same graphs with every weight multiplied by a tiny / huge factor
+    # (only comparisons and maxima are involved, so nothing may change)
+    for sc in SCALES:
+        for a, b in E.chunks(E.n_graphs(4, 3), 250):
+            shards.append(("gs", 4, 3, True, a, b, sc))
+        for a, b in E.chunks(4683, 600):
+            shards.append(("wos", 4, a, b, sc))
     metrics4 = QUICK_METRICS if tier == "quick" else THOROUGH_METRICS
     metrics5 = ["log_squared_euclidean"] if tier == "quick" else THOROUGH_METRICS
     for mt in metrics4:
@@ -103,6 +112,21 @@ def programs(shard, seed):
         labs = E.labelings(n)
         for gi in range(a, b):
             W = E.matrix_from_ranks(n, E.graph_ranks(n, m, gi), table).tolist()
+            for lab in labs:
+                yield {"model": "SupervisedOPF", "mode": "pre", "W": W,
+                       "labels": list(E.rename_classes(lab, seed))}
+    elif kind in ("gs", "wos"):
+        if kind == "gs":
+            _, n, m, zero, a, b, sc = shard
+            table = [v * sc for v in E.value_table(seed, m, zero=zero)]
+            ranks_iter = (E.graph_ranks(n, m, gi) for gi in range(a, b))
+        else:
+            _, n, a, b, sc = shard
+            table = [v * sc for v in E.value_table(seed, n * (n - 1) // 2, zero=(seed % 2 == 1))]
+            ranks_iter = iter(weak_orders(n)[a:b])
+        labs = E.labelings(n)
+        for ranks in ranks_iter:
+            W = E.matrix_from_ranks(n, ranks, table).tolist()
             for lab in labs:
                 yield {"model": "SupervisedOPF", "mode": "pre", "W": W,
                        "labels": list(E.rename_classes(lab, seed))}
